@@ -303,9 +303,31 @@ class Canon(ast.NodeTransformer):
                 return ast.copy_location(ast.BinOp(left=ast.List(elts=[node.elt], ctx=ast.Load()), op=ast.Mult(), right=it.args[0]), node)
         return node
 
-    def visit_Assign(self, node):
+    def _hoist_ifexp_args(self, node):
+        """A conditional expression handed directly to a call as an argument of a simple statement,
+        `x = F(..., kw=(A if c else B))`, is `kw_ = A if c else B` followed by `x = F(..., kw=kw_)`: the case split becomes a
+        branch the value-case analyses see (argument expressions of constructor calls are side-effect free in the package)."""
+        call = node.value
+        if not isinstance(call, ast.Call):
+            return None
+        slots = [("kw", k) for k in call.keywords if k.arg and isinstance(k.value, ast.IfExp)]
+        if len(slots) != 1 or any(isinstance(a, ast.IfExp) for a in call.args):
+            return None
+        k = slots[0][1]
+        name = f"{k.arg}_"
+        tmp = ast.copy_location(ast.Assign(targets=[ast.Name(id=name, ctx=ast.Store())], value=k.value), node)
+        k.value = ast.copy_location(ast.Name(id=name, ctx=ast.Load()), k.value)
+        ast.fix_missing_locations(tmp)
+        first = self.visit_Assign(tmp, hoist=False)
+        return (first if isinstance(first, list) else [first]) + [node]
+
+    def visit_Assign(self, node, hoist=True):
         # x = A if c else B   ==   if c: x = A / else: x = B
         self.generic_visit(node)
+        if hoist:
+            h = self._hoist_ifexp_args(node)
+            if h is not None:
+                return h
         # (x,) = E  is  x = E[0]   (the one-element unpacking also insists that E has exactly one element; what x is bound to is the same)
         if len(node.targets) == 1 and isinstance(node.targets[0], (ast.Tuple, ast.List)) and len(node.targets[0].elts) == 1 and isinstance(node.targets[0].elts[0], ast.Name) \
                 and not isinstance(node.value, (ast.Tuple, ast.List)):
